@@ -17,6 +17,13 @@ CFG = {
         "Leptos.Async.C10_no_awaiter_lost",
         "Leptos.Async.C10_awaiter_parked_or_woken_strict",
         "Leptos.Async.C10_awaiter_lost_after_manual_write_witness",
+        "Leptos.Async.C10_paused_runs_nothing",
+        "Leptos.Async.C10_paused_starts_no_load",
+        "Leptos.Async.C10_notified_again_reaches_task",
+        "Leptos.Async.C10_dirty_poll_refetches",
+        "Leptos.Async.C10_paused_stale_until_notified_witness",
+        "Leptos.Async.C10_resume_then_write_settles_witness",
+        "Leptos.Async.C10_no_renotify_witness",
         "Leptos.Async.C10_sync_access_blocks_witness",
         "Leptos.Async.C10_sync_read_blocks_only_while_storing",
         "Leptos.Async.C10_sync_read_is_previous_or_none",
@@ -110,9 +117,12 @@ CFG = {
                  "leptos_server ArcResource::new_with_options (source memo (refetch, source()), untracked fetcher, refetch)", "ArcOnceResource (one future; "
                  "Suspense handle only while there is no value)", "ArcLocalResource/LocalResource (Executor::tick() before every fetch; refetch = tracked signal)"],
     "assumptions": [
-        "Owner::pause/resume is modelled at the driver level (lean/Driver/C10.lean `pollDPaused`: the task consumes its notification, keeps its Dirty state, "
-        "runs nothing), not in Model/Async.step: the theorems are about histories without `pause` (a paused history leaves the invariant: Dirty with the "
-        "channel flag cleared); driven after the first run, without effect, manual writes, guards, once/local resources",
+        "Owner::pause/resume is modelled in lean/LeptosModel/Model/AsyncPause.lean (`pollDPaused`, `stepP`, `runP`; the driver calls `pollNthP`), an extension "
+        "next to Model/Async.step: the task consumes its notification, keeps its Dirty state, runs nothing. Proved for EVERY state (Theorems/C10Pause.lean): a "
+        "paused poll runs nothing; a notification with the owner running always reaches the task; a Dirty task polled with the owner running refetches on the "
+        "current sources; kernel witnesses: stale until notified again, settles after a later write, the seeded no-renotify variant stuck for good. The full "
+        "history-level statement (C10_resume_then_write_settles_open) is stated as an OPEN def, not claimed: the history-level theorems of Theorems/C10.lean are "
+        "about histories without `pause` (a paused history leaves the invariant: Dirty with the channel flag cleared); driven after the first run, without effect, manual writes, guards, once/local resources",
         "peeking dependents (`dp`/`dq`) are driven on first loads only (no initial value, no set/refetch/mset: during a reload a peek reads None where get() "
         "reads the old value) and map to the model's effect kind `d`; the synchronous observer (ImmediateEffect) is implementation-side only (separate log, "
         "oracle clause, once-resources only: on AsyncDerived-based handles a synchronous reader inside notify_subs was not explored)",
